@@ -46,7 +46,7 @@ func pp(name string, neg bool) citem {
 		t = `\P{` + name + `}`
 		n = 1
 	}
-	return citem{text: t, sexpr: fmt.Sprintf("(c %s %d)", name, n), cat: true, prop: true, ascii: name != "Lu" && name != "Ll" && name != "Lt"}
+	return citem{text: t, sexpr: fmt.Sprintf("(c %s %d)", name, n), cat: true, prop: true, ascii: true}
 }
 
 func posix(name string) citem {
